@@ -289,7 +289,7 @@ func c1Setup(w *W, pat c1Pair, addr string, limit int, lopts, dopts map[string]i
 func c01Sim(w *W) {
 	pat := c1Pairs[w.Choose(simrt.SShape, len(c1Pairs))]
 	// tcp / ipc / tls+tcp: the real endpoint code on the simulated network
-	tran := w.simFallback([]string{"inproc", "sim", "simipc", "tcp", "ipc", "tls+tcp"}[w.Choose(simrt.SShape, 6)])
+	tran := w.simFallback([]string{"inproc", "sim", "simipc", "tcp", "ipc", "tls+tcp", "ws", "wss"}[w.Choose(simrt.SShape, 8)])
 	limits := []int{1024 * 1024, 0, 100, 1000, 5000, 70000}
 	limit := limits[w.Choose(simrt.SShape, len(limits))]
 	big := w.Choose(simrt.SShape, 12) == 0
